@@ -234,6 +234,51 @@ def _ids(e):
     _walk(e, lambda n: out.add(n.name) if isinstance(n, _cxx.Id) else None)
     return out
 
+def _nonconstant_parts(w, e):
+    """sub-expressions of a static initialiser that are not compile-time constants: member accesses, this, identifiers that are neither namespace-scope
+    constants nor enumerators, calls of functions outside std::"""
+    out = []
+    consts = set()
+    for vs in w.filevars.values():
+        consts |= set(vs.keys())
+    def rec(n):
+        if n is None or isinstance(n, (str, int, float, bool)):
+            return
+        if isinstance(n, (list, tuple)):
+            for x in n:
+                rec(x)
+            return
+        if not isinstance(n, _cxx.Node):
+            return
+        if isinstance(n, _cxx.Member):
+            out.append('member access .%s' % n.name)
+            return
+        if isinstance(n, _cxx.Id):
+            nm = n.name
+            last = nm.split('::')[-1]
+            if nm == 'this':
+                out.append('this')
+            elif not (nm.startswith('std::') or last in consts or '::' in nm and nm.split('::')[0] in ('Eigen',) or last[:1].isupper() and '::' in nm):
+                out.append('identifier %s' % nm)
+            return
+        if isinstance(n, _cxx.Call):
+            f = n.f
+            if isinstance(f, _cxx.Id) and f.name.startswith('std::'):
+                rec(n.args)
+            elif isinstance(f, _cxx.Id) and f.name.split('::')[-1] in ('Zero', 'Identity', 'Constant') :
+                rec(n.args)
+            else:
+                out.append('call of %s' % (f.name if isinstance(f, _cxx.Id) else getattr(f, 'name', '?')))
+            return
+        if isinstance(n, _cxx.Lambda):
+            return
+        for fld in n._fields:
+            if fld == 'type':
+                continue
+            rec(getattr(n, fld, None))
+    rec(e)
+    return out
+
 @obligation('C19.no_stateful_local_statics', fns=[])
 def _(ctx):
     """frame inference over EVERY function body of the library sources (src/**, include/**): a function-local `static` must be const AND
@@ -262,6 +307,13 @@ def _(ctx):
                     n_static += 1
                     init_ids = _ids(d.init) | _ids(d.ctor_args)
                     dep = sorted(init_ids & runtime)
+                    # data members, `this`, and calls of non-library functions are run-time data as well (a const static initialised from a member keeps the
+                    # value of the FIRST object that reaches it)
+                    if not dep:
+                        nonconst = []
+                        for part in ([d.init] if d.init is not None else []) + list(d.ctor_args or []):
+                            nonconst += _nonconstant_parts(ctx.w, part)
+                        dep = sorted(set(nonconst))
                     if not d.type.const:
                         bad.append('%s: %s declares the non-const local static `%s`' % (rel, fd.qname, d.name))
                     elif dep:
